@@ -14,10 +14,12 @@ static void obs_abs(void) {
         memcpy(b, rb->buf, sizeof(uint64_t) * rb->capacity);
         copy.buf = b;
         uint64_t v;
-        while (cc_rbuf_dequeue(&copy, &v) == CC_OK) o_item(v);
+        size_t guard = 0;
+        while (cc_rbuf_dequeue(&copy, &v) == CC_OK) { o_item(v); if (++guard > rb->capacity + 1) break; }
         __real_free(b);
     }
     o_end();
+    if (rb && rb->size > rb->capacity) o(" WALK=size-gt-capacity");
     if (rb) o(" size=%zu empty=%d", cc_rbuf_size(rb), (int)cc_rbuf_is_empty(rb));
 }
 static void phys(void) {
